@@ -394,6 +394,8 @@ func (n *symNavNS) Copy() NodeNavigator {
 	return &c
 }
 
+// the NS variant must not fall back to the embedded symNav's MoveTo for foreign navigators
+
 func (n *symNavNS) MoveTo(other NodeNavigator) bool {
 	o, ok := other.(*symNavNS)
 	if !ok || o.doc != n.doc {
